@@ -3,7 +3,7 @@ import gen_prog
 import e2e
 import vlib
 
-BIASES = [None, None, None, "overwrite-loop", "two-loops", "loops-in-branches", "chain-loop", "chain-loop", "tight-cycle", "tight-cycle", "for-accumulate"]
+BIASES = [None, None, None, "overwrite-loop", "two-loops", "loops-in-branches", "chain-loop", "chain-loop", "tight-cycle", "tight-cycle", "for-accumulate", "branch-accumulate"]
 
 # minimal regression programs (witnesses of repaired defects and of open findings); run first
 CORPUS = [
